@@ -164,6 +164,7 @@ def index_cache_follows_inputs(prog, rule):
     if inputs != {'_phases', '_chemicals'}:
         rule.fail('MaterialIndexer._set_cache', 'key', 'the index cache is no longer keyed by (phases, chemicals)', sc, sc.node)
         return
+    _key_determines_fill(prog, rule, c, sc)
     for f in c.methods.values():
         if f.cls is not c or f.name in ('_set_cache', '_set_phases', '_load_chemicals'):
             continue
@@ -205,3 +206,82 @@ def index_cache_follows_inputs(prog, rule):
             else:
                 rule.fail(f.qualname, 'index-cache-not-refreshed', 'self.%s() re-binds %s, the key of the index cache, but no _set_cache() follows: '
                           'lookups keep using the row positions cached for the previous phases/chemicals' % (n.func.attr, sorted(rb & inputs)), f, st)
+
+
+def _self_chain(n):
+    """'self.a.b' for a maximal attribute chain rooted at the name self, else None"""
+    parts = []
+    while isinstance(n, ast.Attribute):
+        parts.append(n.attr)
+        n = n.value
+    if isinstance(n, ast.Name) and n.id == 'self':
+        return '.'.join(['self'] + parts[::-1])
+    return None
+
+
+def _key_determines_fill(prog, rule, c, sc):
+    """The registry hands the SAME lookup dict to every indexer with an equal key, and the dict is filled from
+    self.<field> reads (positions of IDs, groups, aliases, phases).  So the key must determine everything the fill
+    reads from those fields: for every read path self.F.p of a filler, some key element must be self.F or a prefix
+    of self.F.p.  A key element that is a projection of the field (self.F.attr, len(self.F), ...) lets two indexers
+    whose F differ elsewhere share one dict."""
+    alias = {}
+    for n in walk_no_nested(sc.node):
+        if isinstance(n, ast.Assign) and len(n.targets) == 1 and isinstance(n.targets[0], ast.Name):
+            alias[n.targets[0].id] = n.value
+    subs = [n.value for n in walk_no_nested(sc.node) if isinstance(n, ast.Assign) and any(src(t) == 'self._index_cache' for t in n.targets)
+            and isinstance(n.value, ast.Subscript)]
+    if not subs:
+        rule.fail('MaterialIndexer._set_cache', 'key', 'the index cache is not taken from the registry by key', sc, sc.node)
+        return
+    key = subs[0].slice
+    if isinstance(key, ast.Name) and key.id in alias:
+        key = alias[key.id]
+    elems = [src(e) for e in (key.elts if isinstance(key, ast.Tuple) else [key])]
+    roots = set()
+    for e in (key.elts if isinstance(key, ast.Tuple) else [key]):
+        for x in ast.walk(e):
+            ch = _self_chain(x)
+            if ch and ch.count('.') >= 1:
+                roots.add('.'.join(ch.split('.')[:2]))
+    # fillers: methods that store into self._index_cache (directly or through a local bound to it)
+    fillers = []
+    for f in c.methods.values():
+        loc = {'self._index_cache'}
+        for n in walk_no_nested(f.node):
+            if isinstance(n, ast.Assign) and src(n.value) == 'self._index_cache':
+                loc |= {t.id for t in n.targets if isinstance(t, ast.Name)}
+        if any(isinstance(n, ast.Assign) and any(isinstance(t, ast.Subscript) and src(t.value) in loc for t in n.targets) for n in walk_no_nested(f.node)):
+            fillers.append(f)
+    if not fillers:
+        rule.fail('MaterialIndexer', 'no-filler', 'no method fills the index cache', sc, sc.node)
+        return
+    chains = {}
+    seen = set()
+    work = list(fillers)
+    while work:
+        f = work.pop()
+        if id(f) in seen:
+            continue
+        seen.add(id(f))
+        for n in walk_no_nested(f.node):
+            if not isinstance(n, ast.Attribute) or isinstance(getattr(n, '_parent', None), ast.Attribute) and n._parent.value is n:
+                continue      # only maximal chains
+            ch = _self_chain(n)
+            if not ch or not isinstance(n.ctx, ast.Load):
+                continue
+            parts = ch.split('.')
+            if len(parts) == 2 and parts[1] in c.methods:
+                work.append(c.methods[parts[1]])
+                continue
+            chains.setdefault(ch, (f, n))
+    for ch, (f, n) in sorted(chains.items()):
+        root = '.'.join(ch.split('.')[:2])
+        if root not in roots or ch == 'self._index_cache':
+            continue
+        if any(ch == e or ch.startswith(e + '.') for e in elems):
+            rule.ok('MaterialIndexer._set_cache', 'fill reads %s; the registry key %s contains %s itself' % (ch, elems, root), f, n)
+        else:
+            rule.fail('MaterialIndexer._set_cache', 'key-projection',
+                      'the shared index cache is filled from %s (in %s) but the registry key %s holds only a projection of %s: indexers whose %s '
+                      'differ elsewhere (groups, aliases, order) share one lookup dict' % (ch, f.qualname, elems, root, root), sc, sc.node)
